@@ -1,4 +1,4 @@
-import LeptosModel.Proofs.StreamView
+import LeptosModel.Proofs.StreamOooRun
 /-!
 # C07 — streamed HTML equals the fully resolved render for any completion order
 
@@ -16,8 +16,9 @@ Status (after the repairs fix-c07-2 … fix-c07-5 in /repo; the pre-repair code 
 * view closure: **proved for every view of the grammar** (`C07_views_wellformed`): in-order programs / `OooWf`
   out-of-order programs whose document is the resolved view; marker ids are distinct paths (`C07_marker_ids`,
   now also across `ErrorBoundary` sub-builders).
-* out-of-order streaming: the statement is `C07_out_of_order_stmt` — **OPEN** (not proved; validated by the
-  correspondence run and by the kernel-evaluated instances below); the same for `C07_fallback_until_ready_stmt`.
+* out-of-order streaming: **proved** for every `OooWf` program with clean strings and every schedule
+  (`C07_out_of_order`, `C07_out_of_order_total`, `C07_out_of_order_views`), and at every moment of the stream
+  (`C07_fallback_until_ready_doc`); `C07_fallback_until_ready_stmt` (a static reformulation of the latter) stays OPEN.
 * repaired findings, regression witnesses: `C07_eb_inorder_witness` (F-C07-2), `C07_eb_ooo_witness` (F-C07-3),
   `C07_nested_suspend_witness` (F-C07-4), `C07_none_inline_witness` (F-C07-5);
   API-misuse only: `C07_api_misuse_witness` (F-C07-1, not reachable from views: `C07_views_wellformed` gives
@@ -138,48 +139,80 @@ theorem C07_in_order_views (v : View) (done0 : List FId) (sched : List (List FId
   rw [← hv.2]
   exact (C07_in_order _ hv.1 done0 sched).2.1 hl
 
-/-! ## out-of-order streaming: statements (OPEN) -/
+/-! ## out-of-order streaming
 
-/-- text hygiene of one pushed string: it contains no marker, template or script syntax, and every `<` is
-    closed by a later `>` inside the same string (what a view pushes are whole tags and escaped text), so no
-    marker can be formed across a boundary either -/
-def tagClosedFrom : Bool → Str → Bool
-  | o, [] => !o
-  | o, c :: s => tagClosedFrom (if c = '<' then true else if c = '>' then false else o) s
+Hygiene (`cleanOps`, Proofs/StreamOoo; `cleanStr`, Proofs/StreamSeg): every pushed string and every fallback contains no
+marker / `<template` / `</template>` / `<script` / `</script>` text of its own and every `<` in it is closed by a later
+`>` in the same string (what a view pushes are whole tags and escaped text), so that no marker can be formed across a
+boundary either; no nonce.  Proof architecture: Proofs/StreamStr (substring search on tag-closed pieces), StreamSeg
+(texts as segments and `<template>` items), StreamClient (`applyScripts` = hole substitution), StreamOoo /
+StreamOooStep (the invariant `OInv` of `pollStep`), StreamOooRun. -/
 
-def cleanStr (s : Str) : Bool :=
-  !contains "<!--s-".toList s && !contains "<template".toList s && !contains "</template>".toList s &&
-  !contains "<script".toList s && !contains "</script>".toList s && tagClosedFrom false s
+/-- **C07_out_of_order.** Every `OooWf` program (decidable: `oooWfOps`, `OooWf_of_bool`) with clean strings, every
+    completion schedule: the stream never panics and never runs out of fuel, and once it has ended, applying the inline
+    scripts to the concatenation of the yielded chunks gives the fully resolved document. -/
+theorem C07_out_of_order (prog : List Op) (hw : OooWf prog) (hc : cleanOps prog = true)
+    (done0 : List FId) (sched : List (List FId)) :
+    (∀ o ∈ ((startStream true done0 prog).polls sched).out, o ≠ Poll.panic ∧ o ≠ Poll.stuck) ∧
+    (((startStream true done0 prog).polls sched).out.getLast? = some Poll.done →
+      applyScripts (itemsOf ((startStream true done0 prog).polls sched).out) = oooDocOps prog) := by
+  have h := ORun_polls (oooDocOps prog) sched _ (ORun_start prog hw hc done0)
+  refine ⟨h.clean, fun hl => ?_⟩
+  obtain ⟨h1, h2, h3⟩ := h.fin hl
+  exact ORel_done h.rel h1 h2 h3
 
-def cleanNonce (n : Option Str) : Bool :=
-  match n with
-  | none => true
-  | some n => n.all fun c => c.isAlphanum
+/-- **C07_out_of_order_total.** If moreover every base future eventually completes, the stream ends and the client
+    shows the resolved document. -/
+theorem C07_out_of_order_total (prog : List Op) (hw : OooWf prog) (hc : cleanOps prog = true)
+    (done0 : List FId) (sched : List (List FId)) (hall : ∀ f ∈ futsOps prog, f ∈ done0 ++ sched.flatten) :
+    ∃ k, (((startStream true done0 prog).polls sched).drain k).out.getLast? = some Poll.done ∧
+      applyScripts (itemsOf (((startStream true done0 prog).polls sched).drain k).out) = oooDocOps prog := by
+  obtain ⟨k, _, hk⟩ := C07_terminates true prog done0 sched hall
+  have h := ORun_drain (oooDocOps prog) k _ (ORun_polls (oooDocOps prog) sched _ (ORun_start prog hw hc done0))
+  have hd : (((startStream true done0 prog).polls sched).drain k).out.getLast? = some Poll.done := by
+    rcases hk with hk | hk
+    · exact hk
+    · exact absurd rfl (h.clean Poll.panic (List.mem_of_getLast? hk)).1
+  obtain ⟨h1, h2, h3⟩ := h.fin hd
+  exact ⟨k, hd, ORel_done h.rel h1 h2 h3⟩
 
-mutual
-def cleanOp : Op → Bool
-  | .sync s => cleanStr s
-  | .async _ body => cleanOps body
-  | .fallback s => cleanStr s
-  | .ooo _ _ body nonce => cleanOps body && cleanNonce nonce
-  | .nextId => true
-  | .sub body => cleanOps body
-  | .ite _ t e => cleanOps t && cleanOps e
-  | .finish => true
-def cleanOps : List Op → Bool
-  | [] => true
-  | o :: os => cleanOp o && cleanOps os
-end
+/-- **C07_out_of_order_views.** Every view of the grammar with clean strings, every schedule: the out-of-order
+    stream, after its scripts, is the synchronous render of the fully resolved view. -/
+theorem C07_out_of_order_views (v : View) (hc : cleanView v = true) (done0 : List FId) (sched : List (List FId)) :
+    ((startStream true done0 (compile true .top v)).polls sched).out.getLast? = some Poll.done →
+    applyScripts (itemsOf ((startStream true done0 (compile true .top v)).polls sched).out) = viewDoc v := by
+  intro hl
+  have hv := (C07_views_wellformed v).2
+  rw [← hv.2]
+  exact (C07_out_of_order _ hv.1 ((compile_clean true _).1 .top v (Nat.le_refl _) hc) done0 sched).2 hl
 
-/-- OPEN (not proved). **C07_out_of_order**: for every `OooWf` program (decidable: `oooWfOps`, see `OooWf_of_bool`)
-    whose strings are clean, every schedule: once the stream has ended, applying the inline scripts to the
-    concatenation of the yielded chunks gives the resolved document.  Marker ids are unique for `OooWf` programs
-    because every triple starts with its own `next_id`. -/
-def C07_out_of_order_stmt : Prop :=
-  ∀ (prog : List Op), OooWf prog → cleanOps prog = true →
-    ∀ (done0 : List FId) (sched : List (List FId)),
-      ((startStream true done0 prog).polls sched).out.getLast? = some Poll.done →
-      applyScripts (itemsOf ((startStream true done0 prog).polls sched).out) = oooDocOps prog
+/-- **C07_fallback_until_ready_doc** (document level, every moment of every schedule).  What the client shows after
+    applying the scripts to everything yielded so far plus the unflushed buffer is a segment text `D` (followed by the
+    text `tail` still queued before the first poll) in which
+    * the holes (`Seg.hole I fb` = marker-wrapped fallback `fb`) are **exactly** the out-of-order futures that are
+      still in the builder's queues — i.e. not yet resolved, and `pollStep` resolves a future only under `Fut.ready`
+      (`C07_fallback_until_ready`) — each once;
+    * everything else is final: replacing every hole by the resolved document of its future (`Knows σ`, `fill σ`)
+      gives the resolved document of the program.
+    So a fallback is shown precisely as long as its future is unresolved, and it disappears only in exchange for its
+    content. -/
+theorem C07_fallback_until_ready_doc (prog : List Op) (hw : OooWf prog) (hc : cleanOps prog = true)
+    (done0 : List FId) (sched : List (List FId)) :
+    ∃ (D tail : List Seg) (cs : List PendOoo) (σ : List Nat → Option Str),
+      applyScripts (itemsOf ((startStream true done0 prog).polls sched).out
+        ++ ((startStream true done0 prog).polls sched).b.syncBuf) = segsStr D ∧
+      ((startStream true done0 prog).polls sched).b.chunks = cs.map Chunk.ooo ++ tailChunk (segsStr tail) ∧
+      (∀ I, I ∈ holeIds (D ++ tail) ↔ ∃ p ∈ cs ++ ((startStream true done0 prog).polls sched).b.pendingOoo, p.id = some I) ∧
+      (holeIds (D ++ tail)).Nodup ∧
+      Knows σ (cs ++ ((startStream true done0 prog).polls sched).b.pendingOoo) ∧
+      fill σ (D ++ tail) = oooDocOps prog := by
+  have h := ORun_polls (oooDocOps prog) sched _ (ORun_start prog hw hc done0)
+  obtain ⟨ys, bs, tail, cs, σ, hi⟩ := h.rel
+  refine ⟨clientS [] (ys ++ bs), tail, cs, σ, ?_, hi.hC, hi.mem, ?_, hi.knows, hi.doc⟩
+  · rw [hi.hY, hi.hB, ← itemsStr_append]
+    exact applyScripts_items _ hi.okI (List.Nodup.sublist (List.sublist_append_left _ _) hi.ndText) hi.ndTpl
+  · rw [holeIds_append]
+    exact nodup_clientS _ _ _ (by simpa [holeIds] using hi.ndText)
 
 /-- remove every marker comment `<!--s-…-->` (fuel: one per `<`) -/
 def stripMarkersAux : Nat → Str → Str
@@ -204,12 +237,11 @@ def partialDocOps (shown : Fut → Bool) : List Op → Str
     (if shown fut then partialDocOps shown t else partialDocOps shown e) ++ partialDocOps shown os
   | _ :: os => partialDocOps shown os
 
-/-- OPEN (not proved). **C07_fallback_until_ready** at the level of the document: at every moment what the client
-    shows (scripts applied to everything yielded plus the unflushed buffer, marker comments ignored) is the program's
-    document in which some set `shown` of out-of-order futures has been replaced by content and every other one still
-    shows its fallback — and every future in `shown` has completed (content never appears before it is ready; a
-    fallback disappears only in exchange for its content).  Stated for programs whose futures are pairwise distinct
-    (`Fut` then names the triple) and after at least one poll (from then on the builder's queue holds no text). -/
+/-- OPEN (not proved) — a *static* reformulation of `C07_fallback_until_ready_doc` (which is proved and speaks about the
+    run-time futures instead of program positions): what the client shows, marker comments ignored, is the program's
+    document in which some set `shown` of completed out-of-order futures has been replaced by content and every other
+    one still shows its fallback.  Stated for programs whose futures are pairwise distinct and after at least one
+    poll. -/
 def C07_fallback_until_ready_stmt : Prop :=
   ∀ (prog : List Op), OooWf prog → cleanOps prog = true → (futsOps prog).Nodup →
     ∀ (done0 : List FId) (sched : List (List FId)), sched ≠ [] →
@@ -328,7 +360,8 @@ def twoView : View :=
         .suspense "<u>f</u>".toList none [.raw "<p>c</p>".toList, .suspend 2 (.raw "<em>w</em>".toList)], .raw "</div>".toList]
 
 example : inOrdOps (compile false .top twoView) = true
-    ∧ oooWfOps (compile true .top twoView) = true ∧ cleanOps (compile true .top twoView) = true := by decide
+    ∧ oooWfOps (compile true .top twoView) = true ∧ cleanOps (compile true .top twoView) = true
+    ∧ cleanView twoView = true := by decide
 
 example :
     ((startStream false [] (compile false .top twoView)).polls [[], [1], [2], []]).out
@@ -339,7 +372,7 @@ example :
 
 /-- nested Suspense, out-of-order, completion orders 1,2 / 2,1 / both before the first poll: three different
     streams (templates in either order, or everything replaced in place), one document — instances of
-    `C07_out_of_order_stmt` -/
+    `C07_out_of_order` -/
 def nestedOoo : View :=
   .seq [.raw "<div>".toList,
         .suspense "<u>f</u>".toList none
